@@ -264,6 +264,9 @@ class Checker:
                 report_diff(R, "idempotence", df, "decode(encode(decode(b))) differs from decode(b) in %s", case)
             except self.contracts.ContractBroken as e:
                 R.violation("len/%s" % fp["t"], "len(pdu) != len(encode(pdu)): %s" % e, case)
+            except RecursionError:
+                # a few hundred nested aggregates: the interpreter stack, not the codec, decides; not judged here
+                R.count("reencode_recursion_not_judged")
             except Exception as e:
                 R.violation("idempotence/%s/raises/%s" % (fp["t"], exc_sig(e)),
                             "re-encoding/decoding a decoded PDU raised %r" % e, case)
